@@ -1,64 +1,1525 @@
+// Harness for property C02: table replacement is atomic, keeps the last good table, never
+// crashes.  Runs the REAL fabio code:
+//   (i)   route.NewTable / route.NewTableCustom on generated and mutated configuration texts /
+//         definition lists, and Table.Lookup on the result (panics recovered and reported as the
+//         observable);
+//   (ii)  the real main.watchBackend and the real custom backend (registry/custom) through the
+//         driver /repo/verif_c02_test.go, in a separate `go test` process because the update
+//         loops have no recover: a crash kills that process, which is what is observed;
+//   (iii) a forced schedule of SetTable / GetTable / Lookup on the real cell, and a stress run
+//         (writer alternating two tables, readers taking GetTable() once) under the race detector.
 package main
 
 import (
+	"bufio"
 	"bytes"
+	"encoding/json"
 	"fmt"
+	"math"
+	"math/rand"
 	"net/http"
 	"net/url"
+	"os"
+	"os/exec"
+	"path/filepath"
+	"regexp"
+	"sort"
 	"strconv"
+	"strings"
+	"sync"
+	"sync/atomic"
+	"syscall"
+	"time"
+
+	"github.com/gobwas/glob"
 
 	"github.com/fabiolb/fabio/route"
+
+	"verifharness/internal/vh"
 )
 
-func try(text string, host string, globOff bool) {
-	var t route.Table
-	var err error
-	func() {
-		defer func() {
-			if v := recover(); v != nil {
-				fmt.Printf("BUILD PANIC %q: %v\n", text, v)
-				t = nil
-				err = fmt.Errorf("panic")
-			}
-		}()
-		t, err = route.NewTable(bytes.NewBufferString(text))
-	}()
-	if err != nil {
-		fmt.Printf("build err %q: %v\n", text, err)
+const preamble = `From Coq Require Import List NArith ZArith String.
+From Fabio Require Import Lib.Outcome Lib.Bytes Lib.Pack Model.WtF64 Model.TableCmd Model.RouteText Model.TableSwap Check.C02.
+Import ListNotations.
+Local Open Scope N_scope.
+`
+
+// ---------- race detector plumbing (same scheme as C06 / C17) ----------
+func raceReexec() {
+	if !raceEnabled || os.Getenv("C02_RACE_CHILD") != "" {
 		return
 	}
-	func() {
-		defer func() {
-			if v := recover(); v != nil {
-				fmt.Printf("LOOKUP PANIC %q: %v\n", text, v)
+	out := ""
+	for i, a := range os.Args {
+		if (a == "-out" || a == "--out") && i+1 < len(os.Args) {
+			out = os.Args[i+1]
+		} else if strings.HasPrefix(a, "-out=") {
+			out = a[5:]
+		}
+	}
+	exe, err := os.Executable()
+	if out == "" || err != nil {
+		return
+	}
+	os.MkdirAll(out, 0o755)
+	old, _ := filepath.Glob(filepath.Join(out, "race.*"))
+	for _, f := range old {
+		os.Remove(f)
+	}
+	env := append(os.Environ(), "C02_RACE_CHILD=1", "GORACE=log_path="+filepath.Join(out, "race")+" halt_on_error=0 exitcode=0 history_size=3")
+	syscall.Exec(exe, os.Args, env)
+}
+
+func raceReports(run *vh.Run) {
+	files, _ := filepath.Glob(filepath.Join(run.Out, "race.*"))
+	n := 0
+	for _, f := range files {
+		b, _ := os.ReadFile(f)
+		for _, rep := range strings.Split(string(b), "==================") {
+			if !strings.Contains(rep, "DATA RACE") {
+				continue
 			}
-		}()
-		req := &http.Request{Host: host, URL: &url.URL{Path: "/"}, Header: http.Header{}}
-		tg := t.Lookup(req, "", route.Picker["rr"], route.Matcher["prefix"], route.NewGlobCache(10), globOff)
-		fmt.Printf("lookup ok %q -> %v\n", text, tg != nil)
+			n++
+			if n <= 3 {
+				if len(rep) > 3000 {
+					rep = rep[:3000]
+				}
+				run.Violation(-1, "data race on the routing table (race detector; writer alternating SetTable, readers using GetTable + Lookup)", rep)
+			}
+		}
+		os.Remove(f)
+	}
+	run.Notes["race_detector"] = raceEnabled
+	run.Notes["race_reports"] = n
+}
+
+// ---------- Coq term helpers ----------
+func hx(s string) string { return vh.HxS(s) }
+
+func strList(l []string) string {
+	items := make([]string, len(l))
+	for i, s := range l {
+		items[i] = hx(s)
+	}
+	return vh.List(items)
+}
+
+// wtOf renders the exact value of a float64 as a C05 weight; ok=false for NaN
+func wtOf(f float64) (string, bool) {
+	switch {
+	case math.IsNaN(f):
+		return "", false
+	case f == 0:
+		return "WZ", true
+	case math.IsInf(f, 1):
+		return "(WP 4503599627370496 972%Z)", true
+	case math.IsInf(f, -1):
+		return "(WN 4503599627370496 972%Z)", true
+	}
+	fr, exp := math.Frexp(math.Abs(f))
+	m := uint64(math.Ldexp(fr, 53))
+	e := exp - 53
+	c := "WP"
+	if f < 0 {
+		c = "WN"
+	}
+	return fmt.Sprintf("(%s %d (%d)%%Z)", c, m, e), true
+}
+
+func errKind(err error) int {
+	s := err.Error()
+	switch {
+	case strings.Contains(s, "'route' expected"):
+		return 1
+	case strings.Contains(s, "'route add' invalid"):
+		return 2
+	case strings.Contains(s, "'route del' invalid"):
+		return 3
+	case strings.Contains(s, "'route weight' invalid"):
+		return 4
+	case strings.Contains(s, "weight value invalid"):
+		return 5
+	case strings.Contains(s, "prefix must not be empty"):
+		return 6
+	case strings.Contains(s, "target must not be empty"):
+		return 7
+	case strings.Contains(s, "invalid target."):
+		return 8
+	case strings.Contains(s, "no target match"):
+		return 9
+	case strings.Contains(s, "invalid command"):
+		return 11
+	}
+	return 10
+}
+
+type tobs [][3]interface{} // host, path, []string services; hosts ascending, routes in slice order
+
+func dumpTable(t route.Table) tobs {
+	hosts := []string{}
+	for h := range t {
+		hosts = append(hosts, h)
+	}
+	sort.Strings(hosts)
+	out := tobs{}
+	for _, h := range hosts {
+		for _, r := range t[h] {
+			svcs := []string{}
+			for _, tg := range r.Targets {
+				svcs = append(svcs, tg.Service)
+			}
+			out = append(out, [3]interface{}{h, r.Path, svcs})
+		}
+	}
+	return out
+}
+
+func toStrings(v interface{}) []string {
+	switch x := v.(type) {
+	case []string:
+		return x
+	case []interface{}:
+		out := make([]string, len(x))
+		for i, e := range x {
+			out[i], _ = e.(string)
+		}
+		return out
+	}
+	return nil
+}
+
+func coqTobs(t tobs) string {
+	var hosts []string
+	var cur string
+	var routes []string
+	flush := func() {
+		if routes != nil {
+			hosts = append(hosts, vh.Pair(hx(cur), vh.List(routes)))
+		}
+		routes = nil
+	}
+	for i, e := range t {
+		h, _ := e[0].(string)
+		p, _ := e[1].(string)
+		if i == 0 || h != cur {
+			flush()
+			cur = h
+			routes = []string{}
+		}
+		routes = append(routes, vh.Pair(hx(p), strList(toStrings(e[2]))))
+	}
+	flush()
+	return vh.List(hosts)
+}
+
+// ---------- what the libraries say about the strings of a text ----------
+var reSpace = regexp.MustCompile(`[\t\n\f\r ]+`)
+
+type env struct {
+	urls     map[string]string // token -> Coq option
+	badglobs map[string]bool
+	wlits    map[string]string
+	badhosts map[string]bool
+	// domain flags
+	nan, nonASCII, longLine, hostClass, weightCmdExtreme, edgeWeight bool
+}
+
+func newEnv() *env {
+	return &env{urls: map[string]string{}, badglobs: map[string]bool{}, wlits: map[string]string{}, badhosts: map[string]bool{}}
+}
+
+func hostpath(prefix string) (string, string) {
+	if strings.HasPrefix(prefix, ":") {
+		return prefix, ""
+	}
+	p := strings.SplitN(prefix, "/", 2)
+	if len(p) == 1 {
+		return p[0], "/"
+	}
+	return p[0], "/" + p[1]
+}
+
+func normHost(h string, tls bool) string {
+	if !tls && strings.HasSuffix(h, ":80") {
+		h = h[:len(h)-3]
+	}
+	if tls && strings.HasSuffix(h, ":443") {
+		h = h[:len(h)-4]
+	}
+	return strings.ToLower(h)
+}
+
+func (e *env) addDst(d string) {
+	if _, ok := e.urls[d]; ok {
+		return
+	}
+	u, err := url.Parse(d)
+	if err != nil {
+		e.urls[d] = vh.None
+	} else {
+		e.urls[d] = vh.Some(hx(u.String()))
+	}
+}
+
+func (e *env) addSrc(src string) {
+	h, p := hostpath(src)
+	if _, err := glob.Compile(p); err != nil {
+		e.badglobs[p] = true
+	}
+	h = strings.ToLower(h)
+	ok := true
+	for _, tls := range []bool{false, true} {
+		n := normHost(h, tls)
+		if _, err := glob.Compile(n); err != nil {
+			e.badhosts[n] = true
+			ok = false
+		}
+	}
+	if ok && (strings.ContainsAny(h, "[]{}\\") || strings.HasPrefix(h, ":")) {
+		e.hostClass = true
+	}
+}
+
+func (e *env) addWeight(tok string, inWeightCmd bool) {
+	f, err := strconv.ParseFloat(tok, 64)
+	if err != nil {
+		e.wlits[tok] = vh.Err(5)
+		return
+	}
+	w, ok := wtOf(f)
+	if !ok {
+		e.nan = true
+		return
+	}
+	e.wlits[tok] = vh.Ok(w)
+	if f != 0 && (math.IsInf(f, 0) || math.Abs(f) < 1e-300 || math.Abs(f) > 1e300) {
+		e.edgeWeight = true
+	}
+	if inWeightCmd && f != 0 && (math.IsInf(f, 0) || math.Abs(f) < 1e-290 || math.Abs(f) > 1e290) {
+		e.weightCmdExtreme = true
+	}
+}
+
+func (e *env) addText(text string) {
+	for i := 0; i < len(text); i++ {
+		if text[i] >= 128 {
+			e.nonASCII = true
+		}
+	}
+	for _, line := range strings.Split(text, "\n") {
+		if len(line) >= 60000 {
+			e.longLine = true
+		}
+		line = strings.TrimSpace(strings.TrimSuffix(line, "\r"))
+		f := reSpace.Split(line, -1)
+		if len(f) < 3 || f[0] != "route" {
+			continue
+		}
+		if len(f) > 3 && f[1] == "add" {
+			e.addSrc(f[3])
+		}
+		if len(f) > 4 {
+			e.addDst(f[4])
+		}
+		for i := 2; i+1 < len(f); i++ {
+			if f[i] == "weight" {
+				e.addWeight(f[i+1], f[1] == "weight")
+			}
+		}
+	}
+}
+
+func (e *env) coq() string {
+	var urls, bg, wl, bh []string
+	for _, k := range sortedKeys(e.urls) {
+		urls = append(urls, vh.Pair(hx(k), e.urls[k]))
+	}
+	for _, k := range sortedBool(e.badglobs) {
+		bg = append(bg, hx(k))
+	}
+	for _, k := range sortedKeys(e.wlits) {
+		wl = append(wl, vh.Pair(hx(k), e.wlits[k]))
+	}
+	for _, k := range sortedBool(e.badhosts) {
+		bh = append(bh, hx(k))
+	}
+	return vh.App("Env", vh.List(urls), vh.List(bg), vh.List(wl), vh.List(bh))
+}
+
+func (e *env) excluded() string {
+	switch {
+	case e.nonASCII:
+		return "non-ASCII byte in the text (the parser model is ASCII)"
+	case e.longLine:
+		return "line of 60000 bytes or more (bufio.Scanner token limit is outside the parser model)"
+	case e.nan:
+		return "NaN weight (no exact value; not representable in the command-layer model)"
+	case e.weightCmdExtreme:
+		return "route weight command with a non-finite / subnormal-range weight (division modelled on normal numbers only)"
+	case e.hostClass:
+		return "host key with glob classes/alternatives or a ':port' key (outside the host-matching model)"
+	}
+	return ""
+}
+
+// a crash on an input the model does not cover is judged directly; the two known defects are
+// recognised by what the input contains, anything else is reported generically
+func outsideWhat(fn, why string, e *env, buildPanic bool) string {
+	switch {
+	case e.edgeWeight:
+		return fn + " / Lookup panicked on an input outside the modelled domain that carries an Inf / subnormal-range / huge weight (same defect as F-C02-1..3; " + why + ")"
+	case !buildPanic && len(e.badhosts) > 0:
+		return "Lookup panicked on a table with an invalid host glob, built from an input outside the modelled domain (same defect as F-C02-4; " + why + ")"
+	}
+	return fn + " / Lookup panicked on an input outside the modelled domain (" + why + ")"
+}
+
+func sortedKeys(m map[string]string) []string {
+	ks := make([]string, 0, len(m))
+	for k := range m {
+		ks = append(ks, k)
+	}
+	sort.Strings(ks)
+	return ks
+}
+func sortedBool(m map[string]bool) []string {
+	ks := make([]string, 0, len(m))
+	for k := range m {
+		ks = append(ks, k)
+	}
+	sort.Strings(ks)
+	return ks
+}
+
+// ---------- generators ----------
+var (
+	services = []string{"svc-a", "svc-b", "svc-c", "web"}
+	hosts    = []string{"a.test", "b.test", "www.a.test", "*.a.test", "*.test", "A.Test", "", "a.test:80", "x.a.test:8080", "b.test:443"}
+	paths    = []string{"/", "/foo", "/foo/bar", "/Foo", "/api", "/*", "/a?c"}
+	weights  = []string{"0.1", "0.2", "0.25", "0.3", "0.5", "0.7", "0.9", "1", "1.5", "0", "-0.5", "1e-3", "2", ".5", "5e-1", "0.3333", "100", "0.00001", "+0.4"}
+	tagsPool = []string{"a", "b", "a,b", " a , b ", "x"}
+	optsPool = []string{"strip=/foo", "proto=http", "register=alias", "tlsskipverify=true", "prepend=/x strip=/foo"}
+	edgeW    = []string{"Inf", "+Inf", "-Inf", "inf", "Infinity", "1e308", "1.7976931348623157e308", "5e-324", "1e-310", "4e-309",
+		"2.2250738585072014e-308", "1e-300", "1e300", "1e-320", "0x1p-1074", "0x1p1023", "1e999", "-1e308", "1e-999", "9e307", "1e-308", "3e-308"}
+	badHostG = []string{"[", "a[.test", "{a.test", "x\\", "[a-", "*[", "a.test["}
+	badPathG = []string{"/[", "/{a", "/x[a-", "/\\"}
+	badURLs  = []string{"http://a b/", "h:1", "http://[::1/", "http://h/%zz", ":", "http://h:port/", "\x7f", "http://h/\x01", "#", "http://a/?q=%"}
+)
+
+func pick(r *rand.Rand, l []string) string { return l[r.Intn(len(l))] }
+
+func genDst(r *rand.Rand) string {
+	switch r.Intn(8) {
+	case 0:
+		return "https://up" + strconv.Itoa(r.Intn(3)) + ".test/"
+	case 1:
+		return "HTTP://UP.test:8080/x"
+	case 2:
+		return "tcp://1.2.3.4:5"
+	}
+	return fmt.Sprintf("http://10.0.0.%d:%d/", 1+r.Intn(4), 8000+r.Intn(3))
+}
+
+func ws(r *rand.Rand) string {
+	switch r.Intn(12) {
+	case 0:
+		return "  "
+	case 1:
+		return "\t"
+	}
+	return " "
+}
+
+func genAdd(r *rand.Rand, fixedP int) string {
+	s := "route" + ws(r) + "add" + ws(r) + pick(r, services) + ws(r) + pick(r, hosts) + pick(r, paths) + ws(r) + genDst(r)
+	if r.Intn(100) < fixedP {
+		s += ws(r) + "weight" + ws(r) + pick(r, weights)
+	}
+	if r.Intn(5) == 0 {
+		s += ` tags "` + pick(r, tagsPool) + `"`
+	}
+	if r.Intn(8) == 0 {
+		s += ` opts "` + pick(r, optsPool) + `"`
+	}
+	return s
+}
+
+func genDel(r *rand.Rand) string {
+	switch r.Intn(5) {
+	case 0:
+		return "route del " + pick(r, services)
+	case 1:
+		return "route del " + pick(r, services) + " " + pick(r, hosts) + pick(r, paths)
+	case 2:
+		return "route del " + pick(r, services) + " " + pick(r, hosts) + pick(r, paths) + " " + genDst(r)
+	case 3:
+		return `route del ` + pick(r, services) + ` tags "` + pick(r, tagsPool) + `"`
+	}
+	return `route del tags "` + pick(r, tagsPool) + `"`
+}
+
+func genWeight(r *rand.Rand) string {
+	switch r.Intn(3) {
+	case 0:
+		return "route weight " + pick(r, services) + " " + pick(r, hosts) + pick(r, paths) + " weight " + pick(r, weights)
+	case 1:
+		return "route weight " + pick(r, services) + " " + pick(r, hosts) + pick(r, paths) + " weight " + pick(r, weights) + ` tags "` + pick(r, tagsPool) + `"`
+	}
+	return "route weight " + pick(r, hosts) + pick(r, paths) + " weight " + pick(r, weights) + ` tags "` + pick(r, tagsPool) + `"`
+}
+
+// a mostly valid text; weight commands refer to routes that exist with good probability
+func genText(r *rand.Rand, n int) []string {
+	var lines []string
+	fixedP := []int{0, 30, 60}[r.Intn(3)]
+	for len(lines) < n {
+		switch k := r.Intn(20); {
+		case k < 13 || len(lines) == 0:
+			lines = append(lines, genAdd(r, fixedP))
+		case k < 15:
+			lines = append(lines, genDel(r))
+		case k < 17:
+			// a weight command on an existing add line's service and source
+			prev := reSpace.Split(strings.TrimSpace(lines[r.Intn(len(lines))]), -1)
+			if len(prev) > 4 && prev[1] == "add" {
+				lines = append(lines, "route weight "+prev[2]+" "+prev[3]+" weight "+pick(r, weights))
+			} else {
+				lines = append(lines, genWeight(r))
+			}
+		case k < 18:
+			lines = append(lines, []string{"# comment", "// comment", "", "   ", "#route add x"}[r.Intn(5)])
+		default:
+			lines = append(lines, lines[r.Intn(len(lines))]) // a duplicated command
+		}
+	}
+	return lines
+}
+
+func joinLines(r *rand.Rand, lines []string) string {
+	sep := "\n"
+	if r.Intn(10) == 0 {
+		sep = "\r\n"
+	}
+	s := strings.Join(lines, sep)
+	if r.Intn(3) == 0 {
+		s += sep
+	}
+	return s
+}
+
+func replaceField(line string, idx int, v string) string {
+	f := reSpace.Split(strings.TrimSpace(line), -1)
+	if idx >= len(f) {
+		return line
+	}
+	f[idx] = v
+	return strings.Join(f, " ")
+}
+
+// one mutation of a valid text
+func mutate(r *rand.Rand, lines []string) ([]string, string) {
+	out := append([]string{}, lines...)
+	i := r.Intn(len(out))
+	switch r.Intn(16) {
+	case 0:
+		if len(out[i]) > 0 {
+			out[i] = out[i][:r.Intn(len(out[i]))]
+		}
+		return out, "mut-truncated-line"
+	case 1:
+		f := reSpace.Split(strings.TrimSpace(out[i]), -1)
+		if len(f) > 1 {
+			k := r.Intn(len(f))
+			f = append(f[:k], f[k+1:]...)
+		}
+		out[i] = strings.Join(f, " ")
+		return out, "mut-dropped-token"
+	case 2:
+		out[i] = strings.Replace(out[i], "route", pick(r, []string{"rout", "Route", "routes", "route\v", ""}), 1)
+		return out, "mut-keyword"
+	case 3:
+		out[i] = strings.Replace(out[i], `"`, "", 1)
+		return out, "mut-quote"
+	case 4:
+		out[i] = replaceField(out[i], 3, pick(r, badHostG)+"/")
+		return out, "mut-bad-host-glob"
+	case 5:
+		out[i] = replaceField(out[i], 3, "a.test"+pick(r, badPathG))
+		return out, "mut-bad-path-glob"
+	case 6:
+		out[i] = replaceField(out[i], 4, pick(r, badURLs))
+		return out, "mut-bad-url"
+	case 7, 8, 9:
+		w := pick(r, edgeW)
+		if strings.Contains(out[i], " weight ") {
+			f := reSpace.Split(strings.TrimSpace(out[i]), -1)
+			for k := range f {
+				if f[k] == "weight" && k+1 < len(f) && k > 1 {
+					f[k+1] = w
+				}
+			}
+			out[i] = strings.Join(f, " ")
+		} else if strings.Contains(out[i], " add ") && !strings.Contains(out[i], `"`) {
+			out[i] += " weight " + w
+		} else {
+			out = append(out, "route add svc-a a.test/ http://10.0.0.9:9/ weight "+w)
+		}
+		return out, "mut-edge-weight"
+	case 10:
+		out[i] = replaceField(out[i], 2, strings.Repeat("s", 3000+r.Intn(4000)))
+		return out, "mut-long-line"
+	case 11:
+		out[i] = out[i] + pick(r, []string{" extra", " weight", ` tags "`, " weight abc", " weight 0.5 weight 0.6", "\x00", " \x0b"})
+		return out, "mut-trailing-garbage"
+	case 12:
+		k := r.Intn(len(out))
+		out[i], out[k] = out[k], out[i]
+		return out, "mut-reordered"
+	case 13:
+		out = append(out, "route weight nosuch a.test/ weight 0.5")
+		return out, "mut-weight-no-match"
+	case 14:
+		out[i] = replaceField(out[i], 1, pick(r, []string{"ad", "delete", "weigh", "add\x0c"}))
+		return out, "mut-subcommand"
+	}
+	out[i] = strings.ToUpper(out[i])
+	return out, "mut-upper"
+}
+
+// ---------- running the real code ----------
+type lookupReq struct {
+	host    string
+	tls     bool
+	uri     string
+	matcher int // 0 prefix, 1 iprefix
+	globOff bool
+}
+
+func (q lookupReq) coq() string {
+	return vh.App("Req", hx(q.host), vh.Bool(q.tls), hx(q.uri), vh.N(q.matcher), vh.Bool(q.globOff))
+}
+
+var globCache = route.NewGlobCache(1000)
+
+// lookup returns the Coq term of the observable and whether it panicked
+func doLookup(t route.Table, q lookupReq) (string, bool, string) {
+	var tg *route.Target
+	req := &http.Request{Host: q.host, URL: &url.URL{Path: q.uri}, Header: http.Header{}}
+	if q.tls {
+		req.TLS = tlsState
+	}
+	m := route.Matcher["prefix"]
+	if q.matcher == 1 {
+		m = route.Matcher["iprefix"]
+	}
+	p, v := vh.Recover(func() { tg = t.Lookup(req, "", route.Picker["rr"], m, globCache, q.globOff) })
+	if p {
+		return vh.Panic, true, fmt.Sprint(v)
+	}
+	if tg == nil {
+		return vh.Ok(vh.None), false, ""
+	}
+	for _, rs := range t {
+		for _, r := range rs {
+			for _, x := range r.Targets {
+				if x == tg {
+					svc := r.Targets[0].Service
+					for _, y := range r.Targets {
+						if y.Service != svc {
+							svc = ""
+						}
+					}
+					return vh.Ok(vh.Some(fmt.Sprintf("(%s, %s, %s)", hx(r.Host), hx(r.Path), hx(svc)))), false, ""
+				}
+			}
+		}
+	}
+	return vh.Err(98), false, "" // a target that is in no route of the table
+}
+
+func printable(s string) bool {
+	for i := 0; i < len(s); i++ {
+		if s[i] < 33 || s[i] > 126 || s[i] == '[' || s[i] == ']' {
+			return false
+		}
+	}
+	return true
+}
+
+func genLookups(r *rand.Rand, t route.Table, n int) []lookupReq {
+	var keys []string
+	for k := range t {
+		keys = append(keys, k)
+	}
+	sort.Strings(keys)
+	var out []lookupReq
+	for i := 0; i < n; i++ {
+		q := lookupReq{host: "nomatch.test", uri: "/", matcher: r.Intn(4) / 3, globOff: r.Intn(3) == 0, tls: r.Intn(6) == 0}
+		if len(keys) > 0 && r.Intn(5) > 0 {
+			k := keys[r.Intn(len(keys))]
+			h := strings.Replace(k, "*", "x", -1)
+			switch r.Intn(5) {
+			case 0:
+				h = strings.ToUpper(h)
+			case 1:
+				if !strings.Contains(h, ":") {
+					h += ":80"
+				}
+			case 2:
+				h = "y." + h
+			}
+			if rs := t[k]; len(rs) > 0 {
+				rt := rs[r.Intn(len(rs))]
+				q.uri = rt.Path
+				switch r.Intn(4) {
+				case 0:
+					q.uri += "/z"
+				case 1:
+					q.uri = strings.ToUpper(q.uri)
+				}
+			}
+			if h != "" && printable(h) {
+				q.host = h
+			}
+		}
+		if q.uri == "" || !printable(q.uri) {
+			q.uri = "/"
+		}
+		out = append(out, q)
+	}
+	return out
+}
+
+// buildCase runs NewTable (or NewTableCustom) and lookups; returns impl terms
+func observeBuild(r *rand.Rand, build func() (route.Table, error), nLook int) (implTerm string, lookTerms []string, human map[string]interface{}, t route.Table) {
+	var err error
+	human = map[string]interface{}{}
+	p, v := vh.Recover(func() { t, err = build() })
+	switch {
+	case p:
+		implTerm = vh.Panic
+		human["build"] = "PANIC: " + fmt.Sprint(v)
+		return implTerm, nil, human, nil
+	case err != nil:
+		implTerm = vh.Err(errKind(err))
+		human["build"] = "error: " + err.Error()
+		if t != nil {
+			human["partial_table_returned"] = true
+			implTerm = vh.Err(97)
+		}
+		return implTerm, nil, human, nil
+	}
+	implTerm = vh.Ok(coqTobs(dumpTable(t)))
+	human["build"] = "ok"
+	var hl []string
+	for _, q := range genLookups(r, t, nLook) {
+		o, pan, msg := doLookup(t, q)
+		lookTerms = append(lookTerms, vh.Pair(q.coq(), o))
+		if pan {
+			hl = append(hl, fmt.Sprintf("%s%s globoff=%v: PANIC %s", q.host, q.uri, q.globOff, msg))
+		}
+	}
+	if hl != nil {
+		human["lookup_panics"] = hl
+	}
+	return implTerm, lookTerms, human, t
+}
+
+func textCase(run *vh.Run, class, text string, nLook int) {
+	e := newEnv()
+	e.addText(text)
+	impl, looks, human, _ := observeBuild(run.Rng, func() (route.Table, error) { return route.NewTable(bytes.NewBufferString(text)) }, nLook)
+	show := text
+	if len(show) > 600 {
+		show = show[:600] + fmt.Sprintf("... (%d bytes)", len(text))
+	}
+	human["text"] = show
+	if why := e.excluded(); why != "" {
+		run.Exclude(why)
+		// outside the model, but the property still speaks: no text may crash the code
+		if impl == vh.Panic || human["lookup_panics"] != nil {
+			what := outsideWhat("route.NewTable", why, e, impl == vh.Panic)
+			run.Violation(run.NextID(), what, human)
+		}
+		return
+	}
+	run.Add(class, vh.App("CBuild", e.coq(), hx(text), impl, vh.List(looks)), human)
+}
+
+// ---------- (i) build cases ----------
+func buildCases(run *vh.Run) {
+	r := run.Rng
+	// directed: the recorded witnesses and their neighbours
+	directed := []string{
+		"route add s1 c02.test/ http://h0.c02.test:8000/ weight Inf",
+		"route add s1 c02.test/ http://h0.c02.test:8000/ weight 5e-324",
+		"route add s1 c02.test/ http://h0.c02.test:8000/ weight 1e-310",
+		"route add s2 c02.test/ http://h0.c02.test:8000/ weight 1e308\nroute add s3 c02.test/ http://h1.c02.test:8001/ weight 1e308",
+		"route add s2 c02.test/ http://h0.c02.test:8000/ weight 4e-309\nroute add s3 c02.test/ http://h1.c02.test:8001/ weight 4e-309",
+		"route add s [/ http://h/\nroute add t x.test/ http://x/",
+		"route add s a[.test/ http://h/",
+		"route add s1 c02.test/ http://h0/\nroute weight s1 c02.test/ weight Inf",
+		"route add s1 c02.test/ http://h0/ weight 0.5\nroute add s2 c02.test/ http://h1/ weight -Inf",
+		"route add s1 c02.test/ http://h0/ weight 1e308\nroute add s2 c02.test/ http://h1/\nroute add s3 c02.test/ http://h2/ weight 1e308",
+		"route add s1 c02.test/ http://h0/ weight Inf\nroute del s1",
+		"route add s1 c02.test/ http://h0/ weight 1e308\nroute add s2 c02.test/ http://h1/ weight 1e308\nroute del s2",
+		"route add s1 c02.test/ http://h0/ weight 0.2\nroute add s1 c02.test/ http://h0/ weight 0.2\nroute add s1 c02.test/ http://h0/ weight 0.3",
+		"route add s1 c02.test/ http://h0/\nroute del s1\nroute weight s1 c02.test/ weight 0.2",
+		"route add s1 c02.test/ http://h0/ weight 1e999",
+		"route add s1 c02.test/[ http://h0/",
+		"",
+		"\n\n# nothing\n",
+		"route add s1 c02.test/ http://h0/ weight 1e-5\nroute add s2 c02.test/ http://h1/ weight 1e-9\nroute add s3 c02.test/ http://h2/",
+		"route add s1 *.c02.test/ http://h0/\nroute add s2 a.c02.test/ http://h1/\nroute add s3 /x http://h2/",
+	}
+	for _, t := range directed {
+		textCase(run, "directed-witnesses-and-neighbours", t, 6)
+	}
+	nValid := run.Scale(110, 3000)
+	for i := 0; i < nValid; i++ {
+		lines := genText(r, 1+r.Intn(12))
+		textCase(run, "generated-valid", joinLines(r, lines), 5)
+	}
+	nMut := run.Scale(190, 6000)
+	for i := 0; i < nMut; i++ {
+		lines := genText(r, 1+r.Intn(8))
+		out, class := mutate(r, lines)
+		if r.Intn(4) == 0 {
+			out, _ = mutate(r, out)
+			class = "mut-double"
+		}
+		textCase(run, class, joinLines(r, out), 4)
+	}
+	// very long lines and non-ASCII: outside the model, must still not crash
+	textCase(run, "long-line", "route add svc-a a.test/ http://10.0.0.1:80/\nroute add "+strings.Repeat("x", 70000)+" a.test/ http://10.0.0.1:80/\nroute add svc-b b.test/ http://10.0.0.2:80/", 2)
+	textCase(run, "non-ascii", "route add svc-ä a.test/ http://10.0.0.1:80/ weight NaN ", 2)
+	textCase(run, "nan", "route add s a.test/ http://h/ weight NaN\nroute add s a.test/ http://h/ weight NaN\nroute add t a.test/ http://g/ weight 0.5", 3)
+}
+
+// ---------- (i-b) NewTableCustom ----------
+func coqDef(d route.RouteDef) (string, bool) {
+	var c string
+	switch d.Cmd {
+	case route.RouteAddCmd:
+		c = "CmdAdd"
+	case route.RouteDelCmd:
+		c = "CmdDel"
+	case route.RouteWeightCmd:
+		c = "CmdWeight"
+	default:
+		return vh.None, true
+	}
+	w, ok := wtOf(d.Weight)
+	if !ok {
+		return "", false
+	}
+	keys := []string{}
+	for k := range d.Opts {
+		keys = append(keys, k)
+	}
+	sort.Strings(keys)
+	opts := []string{}
+	for _, k := range keys {
+		opts = append(opts, vh.Pair(hx(k), hx(d.Opts[k])))
+	}
+	return vh.Some(vh.App("Build_def", c, hx(d.Service), hx(d.Src), hx(d.Dst), w, strList(d.Tags), vh.List(opts))), true
+}
+
+func defsEnv(defs []route.RouteDef) *env {
+	e := newEnv()
+	for _, d := range defs {
+		for _, s := range []string{d.Service, d.Src, d.Dst} {
+			for i := 0; i < len(s); i++ {
+				if s[i] >= 128 {
+					e.nonASCII = true
+				}
+			}
+		}
+		if d.Dst != "" {
+			e.addDst(d.Dst)
+		}
+		if d.Src != "" && d.Cmd == route.RouteAddCmd {
+			e.addSrc(d.Src)
+		}
+		if math.IsNaN(d.Weight) {
+			e.nan = true
+		}
+		if d.Weight != 0 && (math.IsInf(d.Weight, 0) || math.Abs(d.Weight) < 1e-300 || math.Abs(d.Weight) > 1e300) {
+			e.edgeWeight = true
+		}
+		if d.Cmd == route.RouteWeightCmd && d.Weight != 0 && (math.IsInf(d.Weight, 0) || math.Abs(d.Weight) < 1e-290 || math.Abs(d.Weight) > 1e290) {
+			e.weightCmdExtreme = true
+		}
+		if len(d.Tags) == 0 && d.Tags != nil {
+			e.hostClass = true // empty non-nil tag slice: reflect.DeepEqual(nil, []string{}) is outside the model
+		}
+	}
+	return e
+}
+
+func genDefs(r *rand.Rand) ([]route.RouteDef, string) {
+	lines := genText(r, 1+r.Intn(8))
+	ptrs, err := route.Parse(bytes.NewBufferString(strings.Join(lines, "\n")))
+	if err != nil {
+		return nil, ""
+	}
+	defs := make([]route.RouteDef, len(ptrs))
+	for i, p := range ptrs {
+		defs[i] = *p
+	}
+	class := "custom-valid"
+	if len(defs) > 0 {
+		i := r.Intn(len(defs))
+		switch r.Intn(12) {
+		case 0:
+			defs[i].Src = ""
+			class = "custom-empty-src"
+		case 1:
+			defs[i].Dst = ""
+			class = "custom-empty-dst"
+		case 2:
+			defs[i].Cmd = route.Cmd(pick(r, []string{"", "route", "route ad", "ROUTE ADD"}))
+			class = "custom-unknown-cmd"
+		case 3:
+			defs[i].Weight = []float64{math.Inf(1), 1e308, 5e-324, -1, 1e-310, 0.5}[r.Intn(6)]
+			class = "custom-edge-weight"
+		case 4:
+			defs[i].Service = ""
+			class = "custom-empty-service"
+		case 5:
+			defs[i].Dst = pick(r, badURLs)
+			class = "custom-bad-url"
+		case 6:
+			defs[i].Src = pick(r, badHostG) + "/"
+			class = "custom-bad-host-glob"
+		}
+	}
+	return defs, class
+}
+
+func customCase(run *vh.Run, class string, defs []route.RouteDef) {
+	e := defsEnv(defs)
+	cp := append([]route.RouteDef{}, defs...)
+	impl, looks, human, _ := observeBuild(run.Rng, func() (route.Table, error) { return route.NewTableCustom(&cp) }, 4)
+	human["defs"] = fmt.Sprintf("%+v", defs)
+	var terms []string
+	for _, d := range defs {
+		t, ok := coqDef(d)
+		if !ok {
+			e.nan = true
+			break
+		}
+		terms = append(terms, t)
+	}
+	if why := e.excluded(); why != "" {
+		run.Exclude(why)
+		if impl == vh.Panic || human["lookup_panics"] != nil {
+			run.Violation(run.NextID(), outsideWhat("route.NewTableCustom", why, e, impl == vh.Panic), human)
+		}
+		return
+	}
+	run.Add(class, vh.App("CCustom", e.coq(), vh.List(terms), impl, vh.List(looks)), human)
+}
+
+func customCases(run *vh.Run) {
+	r := run.Rng
+	customCase(run, "custom-empty-src", []route.RouteDef{{Cmd: route.RouteAddCmd, Service: "s", Src: "", Dst: "http://h/"}})
+	customCase(run, "custom-empty-src", []route.RouteDef{{Cmd: route.RouteWeightCmd, Service: "s", Src: "", Weight: 0.5}})
+	customCase(run, "custom-empty-src", []route.RouteDef{{Cmd: route.RouteAddCmd, Service: "s", Src: "a.test/", Dst: "http://h/"}, {Cmd: route.RouteDelCmd, Service: "s", Src: "", Dst: "http://h/"}})
+	customCase(run, "custom-empty-dst", []route.RouteDef{{Cmd: route.RouteAddCmd, Service: "s", Src: "a.test/", Dst: ""}})
+	customCase(run, "custom-unknown-cmd", []route.RouteDef{{Cmd: "bogus"}})
+	customCase(run, "custom-valid", []route.RouteDef{})
+	customCase(run, "custom-edge-weight", []route.RouteDef{{Cmd: route.RouteAddCmd, Service: "s", Src: "a.test/", Dst: "http://h/", Weight: math.Inf(1)}})
+	n := run.Scale(50, 1500)
+	for i := 0; i < n; i++ {
+		defs, class := genDefs(r)
+		if class == "" {
+			continue
+		}
+		customCase(run, class, defs)
+	}
+}
+
+// ---------- (ii) the real update loops, in a separate process ----------
+type wEvent struct {
+	Man  bool   `json:"man"`
+	Text string `json:"text"`
+	Obs  bool   `json:"obs"`
+}
+type wJob struct {
+	Kind   string   `json:"kind"`
+	Format string   `json:"format"`
+	Events []wEvent `json:"events"`
+	Docs   []string `json:"docs"`
+}
+type wLine struct {
+	Job   int      `json:"job"`
+	Step  int      `json:"step"`
+	Table tobs     `json:"table"`
+	Msgs  []string `json:"msgs"`
+	Done  bool     `json:"done"`
+	Stuck bool     `json:"stuck"`
+}
+
+var (
+	badTexts = []string{"rout add x", "route add svc-a", "route add svc-a /foo", "route weight nosuch /foo weight 0.5", "route add svc-a a.test/ http://a b/",
+		"route add svc-a a.test/[ http://10.0.0.1:80/", "route del", "route add svc-a a.test/ http://10.0.0.1:80/ weight abc", "garbage"}
+	crashTexts = []string{"route add s1 c02.test/ http://h0.c02.test:8000/ weight Inf", "route add s1 c02.test/ http://h0.c02.test:8000/ weight 5e-324"}
+)
+
+// a text of more than 4 KiB (bufio.Scanner's first read) with a syntax error on an early line
+func bigTextEarlyError(r *rand.Rand) string {
+	var lines []string
+	for i := 0; i < 110+r.Intn(40); i++ {
+		lines = append(lines, fmt.Sprintf("route add big-%d big%d.test/p%d http://10.1.%d.%d:80/", i, i%7, i, i/200, i%200))
+	}
+	lines[1+r.Intn(3)] = pick(r, badTexts)
+	return strings.Join(lines, "\n")
+}
+
+type watchScript struct {
+	class  string
+	texts  []string
+	evs    [][3]int // man, text index, obs
+	format string
+	crash  bool
+}
+
+func genWatchScript(r *rand.Rand, si int, crash bool) watchScript {
+	sc := watchScript{class: "watch-valid-only", texts: []string{""}, format: []string{"delta", "detail", "all", "bogus"}[si%4]}
+	add := func(t string) int {
+		for i, x := range sc.texts {
+			if x == t {
+				return i
+			}
+		}
+		sc.texts = append(sc.texts, t)
+		return len(sc.texts) - 1
+	}
+	pBad := []int{0, 25, 45}[si%3]
+	n := 3 + r.Intn(5)
+	crashAt := -1
+	if crash {
+		crashAt = 1 + r.Intn(n-1)
+		sc.class = "watch-crash-text"
+		sc.crash = true
+	}
+	big := si%5 == 4 && !crash
+	for k := 0; k < n; k++ {
+		man := r.Intn(5) < 2
+		var t string
+		switch {
+		case k == crashAt:
+			t = crashTexts[si%len(crashTexts)]
+		case big && k == 1:
+			t = bigTextEarlyError(r)
+			sc.class = "watch-big-text-early-error"
+		case r.Intn(100) < pBad:
+			t = pick(r, badTexts)
+			if r.Intn(2) == 0 {
+				t = joinLines(r, genText(r, 1+r.Intn(3))) + "\n" + t
+			}
+			if sc.class == "watch-valid-only" {
+				sc.class = "watch-mixed-valid-invalid"
+			}
+		default:
+			t = joinLines(r, genText(r, 1+r.Intn(4)))
+		}
+		if r.Intn(7) == 0 && len(sc.texts) > 1 && k != crashAt {
+			t = sc.texts[r.Intn(len(sc.texts))]
+		}
+		i := add(t)
+		m := 0
+		if man {
+			m = 1
+		}
+		sc.evs = append(sc.evs, [3]int{m, i, 0})
+		sc.evs = append(sc.evs, [3]int{m, i, 1}) // re-delivery: once accepted, the first one has been processed
+	}
+	return sc
+}
+
+func runDriver(run *vh.Run, jobs []wJob) (map[int][]wLine, map[int]bool, map[int]string) {
+	lines := map[int][]wLine{}
+	done := map[int]bool{}
+	crashLog := map[int]string{}
+	repo := os.Getenv("VERIF_REPO")
+	if repo == "" {
+		repo = "/repo"
+	}
+	dir, err := os.MkdirTemp("", "verif-c02-")
+	if err != nil {
+		panic(err)
+	}
+	defer os.RemoveAll(dir)
+	inF, outF, bin := filepath.Join(dir, "in.json"), filepath.Join(dir, "out.jsonl"), filepath.Join(dir, "main.test")
+	b, _ := json.Marshal(jobs)
+	os.WriteFile(inF, b, 0o644)
+	cmd := exec.Command("go", "test", "-tags", "verif", "-c", "-o", bin, ".")
+	cmd.Dir = repo
+	if out, err := cmd.CombinedOutput(); err != nil {
+		tail := string(out)
+		if len(tail) > 1500 {
+			tail = tail[len(tail)-1500:]
+		}
+		run.Violation(run.NextID(), "cannot build the watchBackend driver (go test -tags verif -c in "+repo+"): "+err.Error(), tail)
+		return lines, done, crashLog
+	}
+	from := 0
+	for restarts := 0; from < len(jobs) && restarts < 40; restarts++ {
+		os.Remove(outF)
+		c := exec.Command(bin, "-test.run", "TestVerifC02$", "-test.count=1", "-test.timeout=20m")
+		c.Dir = repo
+		c.Env = append(os.Environ(), "VERIF_C02_IN="+inF, "VERIF_C02_OUT="+outF, "VERIF_C02_FROM="+strconv.Itoa(from))
+		var log bytes.Buffer
+		c.Stdout, c.Stderr = &log, &log
+		errc := make(chan error, 1)
+		if err := c.Start(); err != nil {
+			run.Violation(run.NextID(), "cannot start the watchBackend driver: "+err.Error(), nil)
+			return lines, done, crashLog
+		}
+		go func() { errc <- c.Wait() }()
+		var werr error
+		select {
+		case werr = <-errc:
+		case <-time.After(25 * time.Minute):
+			c.Process.Kill()
+			werr = fmt.Errorf("timeout")
+		}
+		last := from - 1
+		if f, err := os.Open(outF); err == nil {
+			sc := bufio.NewScanner(f)
+			sc.Buffer(make([]byte, 1<<20), 1<<26)
+			for sc.Scan() {
+				var l wLine
+				if json.Unmarshal(sc.Bytes(), &l) != nil {
+					continue
+				}
+				if l.Done {
+					done[l.Job] = true
+					last = l.Job
+				} else {
+					lines[l.Job] = append(lines[l.Job], l)
+				}
+			}
+			f.Close()
+		}
+		if werr == nil {
+			break
+		}
+		// the process died in job last+1
+		tail := log.String()
+		if i := strings.Index(tail, "panic:"); i >= 0 {
+			tail = tail[i:]
+		}
+		if len(tail) > 1200 {
+			tail = tail[:1200]
+		}
+		crashLog[last+1] = fmt.Sprintf("%v: %s", werr, tail)
+		from = last + 2
+	}
+	return lines, done, crashLog
+}
+
+func candVerdict(text string) (string, string) {
+	var t route.Table
+	var err error
+	p, v := vh.Recover(func() { t, err = route.NewTable(bytes.NewBufferString(text)) })
+	switch {
+	case p:
+		return vh.Panic, "PANIC " + fmt.Sprint(v)
+	case err != nil:
+		return vh.Err(errKind(err)), "invalid"
+	}
+	return vh.Ok(coqTobs(dumpTable(t))), "valid"
+}
+
+func loopCases(run *vh.Run) {
+	r := run.Rng
+	nseq := run.Scale(40, 600)
+	ncrash := run.Scale(2, 12)
+	var scripts []watchScript
+	for si := 0; si < nseq; si++ {
+		scripts = append(scripts, genWatchScript(r, si, false))
+	}
+	for si := 0; si < ncrash; si++ {
+		scripts = append(scripts, genWatchScript(r, si, true))
+	}
+	var jobs []wJob
+	for _, sc := range scripts {
+		j := wJob{Kind: "watch", Format: sc.format}
+		for _, e := range sc.evs {
+			j.Events = append(j.Events, wEvent{Man: e[0] == 1, Text: sc.texts[e[1]], Obs: e[2] == 1})
+		}
+		jobs = append(jobs, j)
+	}
+	// custom backend jobs
+	type cjob struct {
+		defs  [][]route.RouteDef // nil entry = a body that is not a definition list
+		class []string
+		reset []bool
+	}
+	var cjobs []cjob
+	ncj := run.Scale(4, 40)
+	for k := 0; k < ncj; k++ {
+		var cj cjob
+		var docs []string
+		for d := 0; d < 6; d++ {
+			defs, class := genDefs(r)
+			if class == "" || d == 3 {
+				// an undecodable body: the table must stay as it is
+				docs = append(docs, pick(r, []string{"{", `{"cmd":1}`, `[{"weight":"x"}]`, "[1,2]", ""}))
+				cj.defs = append(cj.defs, nil)
+				cj.class = append(cj.class, "custom-backend-undecodable")
+				cj.reset = append(cj.reset, false)
+				continue
+			}
+			if d == 1 {
+				defs = []route.RouteDef{{Cmd: route.RouteAddCmd, Service: "s", Src: "", Dst: "http://h/"}}
+				class = "custom-empty-src"
+			}
+			ex := defsEnv(defs)
+			if ex.excluded() != "" || class == "custom-edge-weight" { // crashing weights: the dedicated job below
+				defs = []route.RouteDef{{Cmd: route.RouteAddCmd, Service: "s", Src: "a.test/", Dst: "http://h/"}}
+				class = "custom-valid"
+			}
+			body := fullJSON(defs)
+			if d == 1 {
+				body = pick(r, []string{`[{"cmd":"route add","service":"s","src":"","dst":"http://h/"}]`, `[{"cmd":"route add","service":"s","dst":"http://h/"}]`})
+			}
+			reset := d != 1 && d != 2
+			if reset {
+				body = "!reset!" + body
+			}
+			docs = append(docs, body)
+			cj.defs = append(cj.defs, defs)
+			cj.class = append(cj.class, "custom-backend-"+strings.TrimPrefix(class, "custom-"))
+			cj.reset = append(cj.reset, reset)
+		}
+		cjobs = append(cjobs, cj)
+		jobs = append(jobs, wJob{Kind: "custom", Docs: docs})
+	}
+
+	staleJob := len(jobs)
+	jobs = append(jobs, wJob{Kind: "custom", Docs: []string{
+		`!reset![{"cmd":"route add","service":"svc-a","src":"a.test/","dst":"http://10.0.0.1:80/"}]`,
+		`!reset![{"cmd":"route add","service":"svc-s","dst":"http://10.0.0.2:80/"}]`}})
+	customCrashJob := len(jobs)
+	jobs = append(jobs, wJob{Kind: "custom", Docs: []string{
+		`!reset![{"cmd":"route add","service":"svc-a","src":"a.test/","dst":"http://10.0.0.1:80/"}]`,
+		`[{"cmd":"route add","service":"svc-b","src":"b.test/","dst":"http://10.0.0.2:80/","weight":5e-324}]`}})
+
+	lines, done, crashLog := runDriver(run, jobs)
+	// a definition without "src" is an error (route: prefix must not be empty), whatever was polled before
+	if ls := lines[staleJob]; len(ls) == 2 {
+		reported := false
+		for _, m := range ls[1].Msgs {
+			if strings.Contains(m, "prefix must not be empty") {
+				reported = true
+			}
+		}
+		if !reported || len(ls[1].Table) != 0 {
+			run.Violation(run.NextID(), "custom backend: a definition without \"src\" was installed with the src of the previous poll's definition (decoder state reused across polls)",
+				map[string]interface{}{"poll1": jobs[staleJob].Docs[0], "poll2": jobs[staleJob].Docs[1], "reported": ls[1].Msgs, "table_after_poll2": ls[1].Table})
+		}
+	} else {
+		run.Violation(run.NextID(), "custom backend driver: the stale-state job did not complete", crashLog[staleJob])
+	}
+	if crashLog[customCrashJob] != "" {
+		run.Violation(run.NextID(), "custom backend: weight 5e-324 in the polled definitions crashed the process (no recover in the polling goroutine): "+crashLog[customCrashJob], jobs[customCrashJob].Docs[1])
+	} else if ls := lines[customCrashJob]; len(ls) != 2 {
+		run.Violation(run.NextID(), "custom backend driver: the crash job did not complete", nil)
+	}
+
+	for si, sc := range scripts {
+		ls := lines[si]
+		if !done[si] && crashLog[si] == "" {
+			run.Violation(run.NextID(), "watchBackend driver did not run this sequence", sc.texts)
+			continue
+		}
+		stuck := false
+		for _, l := range ls {
+			if l.Stuck {
+				stuck = true
+			}
+		}
+		if stuck {
+			run.Violation(run.NextID(), "watchBackend stopped accepting config deliveries (loop stuck or dead)", sc.texts)
+			continue
+		}
+		e := newEnv()
+		for _, t := range sc.texts {
+			e.addText(t)
+		}
+		// observations by step
+		byStep := map[int]tobs{}
+		for _, l := range ls {
+			byStep[l.Step] = l.Table
+		}
+		var impl, human []string
+		for k, ev := range sc.evs {
+			if ev[2] != 1 {
+				continue
+			}
+			if t, ok := byStep[k]; ok {
+				impl = append(impl, vh.Some(coqTobs(t)))
+				human = append(human, fmt.Sprintf("step %d: %d routes", k, len(t)))
+			} else {
+				impl = append(impl, vh.None)
+				human = append(human, fmt.Sprintf("step %d: PROCESS DEAD", k))
+			}
+		}
+		// the real NewTable on every candidate of the history
+		seen := map[[2]int]bool{}
+		cur := [2]int{0, 0}
+		var cands, hc []string
+		for _, ev := range sc.evs {
+			cur[ev[0]] = ev[1]
+			if seen[cur] {
+				continue
+			}
+			seen[cur] = true
+			v, h := candVerdict(sc.texts[cur[0]] + "\n" + sc.texts[cur[1]])
+			cands = append(cands, fmt.Sprintf("(%d%%nat, %d%%nat, %s)", cur[0], cur[1], v))
+			hc = append(hc, fmt.Sprintf("%d+%d %s", cur[0], cur[1], h))
+		}
+		evs := make([]string, len(sc.evs))
+		for i, ev := range sc.evs {
+			evs[i] = fmt.Sprintf("(%s, %d%%nat, %s)", vh.Bool(ev[0] == 1), ev[1], vh.Bool(ev[2] == 1))
+		}
+		show := make([]string, len(sc.texts))
+		for i, t := range sc.texts {
+			show[i] = t
+			if len(t) > 300 {
+				show[i] = t[:300] + fmt.Sprintf("... (%d bytes)", len(t))
+			}
+		}
+		sample := map[string]interface{}{"texts": show, "events(man,text,obs)": sc.evs, "candidates": hc, "observed": human, "format": sc.format}
+		if crashLog[si] != "" {
+			sample["process"] = crashLog[si]
+		}
+		if why := e.excluded(); why != "" {
+			run.Exclude(why)
+			continue
+		}
+		run.Add(sc.class, vh.App("CWatch", e.coq(), strList(sc.texts), vh.List(evs), vh.List(cands), vh.List(impl)), sample)
+	}
+	for k, cj := range cjobs {
+		ji := len(scripts) + k
+		ls := lines[ji]
+		if crashLog[ji] != "" {
+			run.Violation(run.NextID(), "custom backend: the polling goroutine crashed the process on generated definitions: "+crashLog[ji], nil)
+		}
+		var prev tobs
+		for d, l := range ls {
+			if d >= len(cj.defs) {
+				break
+			}
+			if l.Stuck {
+				run.Violation(run.NextID(), "custom backend stopped reporting", nil)
+				break
+			}
+			errMsg := ""
+			for _, m := range l.Msgs {
+				if strings.HasPrefix(m, "Error") {
+					errMsg = m
+				}
+			}
+			if cj.reset[d] {
+				prev = tobs{}
+			}
+			if cj.defs[d] == nil || errMsg != "" {
+				// nothing may have been installed
+				if a, b := coqTobs(l.Table), coqTobs(prev); a != b {
+					run.Violation(run.NextID(), "custom backend: an update that was reported as failed changed the active table", map[string]interface{}{"msgs": l.Msgs, "table": l.Table, "before": prev})
+				}
+			}
+			if cj.defs[d] != nil {
+				e := defsEnv(cj.defs[d])
+				var terms []string
+				for _, x := range cj.defs[d] {
+					t, _ := coqDef(x)
+					terms = append(terms, t)
+				}
+				impl := vh.Ok(coqTobs(l.Table))
+				if errMsg != "" {
+					impl = vh.Err(errKind(fmt.Errorf("%s", errMsg)))
+				} else if !cj.reset[d] {
+					prev = l.Table
+					continue // built on top of nothing but observed after a non-reset: compare only failures above
+				}
+				run.Add(cj.class[d], vh.App("CCustom", e.coq(), vh.List(terms), impl, "[]"),
+					map[string]interface{}{"defs": fmt.Sprintf("%+v", cj.defs[d]), "msgs": l.Msgs, "table": l.Table})
+			}
+			prev = l.Table
+		}
+		if len(ls) < len(cj.defs) && crashLog[ji] == "" {
+			run.Violation(run.NextID(), "custom backend driver: missing observations", nil)
+		}
+	}
+}
+
+// every key explicit (null for no tags / no opts): the backend decodes into the definitions of
+// the previous poll, so an omitted key would inherit the previous value (finding F-C02-5)
+func fullJSON(defs []route.RouteDef) string {
+	type full struct {
+		Cmd     string            `json:"cmd"`
+		Service string            `json:"service"`
+		Src     string            `json:"src"`
+		Dst     string            `json:"dst"`
+		Weight  float64           `json:"weight"`
+		Tags    []string          `json:"tags"`
+		Opts    map[string]string `json:"opts"`
+	}
+	l := make([]full, len(defs))
+	for i, d := range defs {
+		l[i] = full{string(d.Cmd), d.Service, d.Src, d.Dst, d.Weight, d.Tags, d.Opts}
+	}
+	b, _ := json.Marshal(l)
+	return string(b)
+}
+
+// ---------- (iii) the cell: forced schedules and the stress run ----------
+var tlsState = nil2tls()
+
+func schedCases(run *vh.Run) {
+	r := run.Rng
+	n := run.Scale(40, 1000)
+	for c := 0; c < n; c++ {
+		nt := 2 + r.Intn(2)
+		texts := make([]string, nt)
+		e := newEnv()
+		for i := range texts {
+			// same hosts and paths in every table, a different service per generation
+			var lines []string
+			for k := 0; k < 1+r.Intn(3); k++ {
+				lines = append(lines, fmt.Sprintf("route add gen%d-%d %s%s http://10.0.%d.%d:80/", i, k, []string{"a.test", "*.test", ""}[k%3], []string{"/", "/foo", "/api"}[r.Intn(3)], i, k))
+			}
+			if r.Intn(6) == 0 {
+				lines = append(lines, pick(r, badTexts)) // an invalid text: NewTable fails, SetTable(nil)
+			}
+			texts[i] = strings.Join(lines, "\n")
+			e.addText(texts[i])
+		}
+		loaded := map[int]bool{}
+		local := map[int]route.Table{}
+		route.SetTable(make(route.Table))
+		var acts, impl, human []string
+		steps := 8 + r.Intn(10)
+		for s := 0; s < steps; s++ {
+			rd := r.Intn(3)
+			switch k := r.Intn(10); {
+			case k < 3:
+				i := r.Intn(nt)
+				t, _ := route.NewTable(bytes.NewBufferString(texts[i]))
+				route.SetTable(t)
+				acts = append(acts, fmt.Sprintf("(SSet %d%%nat)", i))
+				human = append(human, fmt.Sprintf("set %d", i))
+			case k == 3:
+				route.SetTable(nil)
+				acts = append(acts, "SNil")
+				human = append(human, "set nil")
+			case k < 6 || !loaded[rd]:
+				local[rd] = route.GetTable()
+				loaded[rd] = true
+				acts = append(acts, fmt.Sprintf("(SLoad %d%%nat)", rd))
+				human = append(human, fmt.Sprintf("load r%d", rd))
+			default:
+				q := lookupReq{host: pick(r, []string{"a.test", "b.test", "A.TEST:80"}), uri: pick(r, []string{"/", "/foo/x", "/api", "/zzz"}), globOff: r.Intn(4) == 0}
+				o, _, _ := doLookup(local[rd], q)
+				acts = append(acts, vh.App("SLook", vh.Nat(rd), q.coq()))
+				impl = append(impl, o)
+				human = append(human, fmt.Sprintf("lookup r%d %s%s", rd, q.host, q.uri))
+			}
+		}
+		run.Add("forced-schedule", vh.App("CSched", e.coq(), strList(texts), vh.List(acts), vh.List(impl)),
+			map[string]interface{}{"texts": texts, "schedule": human})
+	}
+	route.SetTable(make(route.Table))
+}
+
+func stress(run *vh.Run) {
+	mk := func(gen string) route.Table {
+		var lines []string
+		for k := 0; k < 12; k++ {
+			lines = append(lines, fmt.Sprintf("route add %s-%d h%d.test/p%d http://10.9.%d.1:80/", gen, k, k%4, k, k))
+			lines = append(lines, fmt.Sprintf("route add %s-%d h%d.test/p%d http://10.9.%d.2:80/ weight 0.3", gen, k, k%4, k, k))
+		}
+		t, err := route.NewTable(bytes.NewBufferString(strings.Join(lines, "\n")))
+		if err != nil {
+			panic(err)
+		}
+		return t
+	}
+	dur := time.Duration(run.Scale(2, 30)) * time.Second
+	var stop int32
+	var wg sync.WaitGroup
+	var mixed, lookups, generations int64
+	var firstMixed atomic.Value
+	route.SetTable(mk("A"))
+	wg.Add(1)
+	go func() {
+		defer wg.Done()
+		for i := 0; atomic.LoadInt32(&stop) == 0; i++ {
+			// a fresh table every time, as the update loop builds one
+			route.SetTable(mk([]string{"A", "B"}[i%2]))
+			if i%5 == 0 {
+				route.SetTable(nil)
+			}
+			atomic.AddInt64(&generations, 1)
+		}
 	}()
+	gc := route.NewGlobCache(100)
+	for rd := 0; rd < 8; rd++ {
+		wg.Add(1)
+		go func(rd int) {
+			defer wg.Done()
+			rng := rand.New(rand.NewSource(int64(rd) + run.Seed))
+			for atomic.LoadInt32(&stop) == 0 {
+				t := route.GetTable()
+				gen := ""
+				for k := 0; k < 20; k++ {
+					j := rng.Intn(12)
+					req := &http.Request{Host: fmt.Sprintf("h%d.test", j%4), URL: &url.URL{Path: fmt.Sprintf("/p%d/x", j)}, Header: http.Header{}}
+					tg := t.Lookup(req, "", route.Picker["rr"], route.Matcher["prefix"], gc, rng.Intn(2) == 0)
+					atomic.AddInt64(&lookups, 1)
+					g := "none"
+					if tg != nil {
+						g = tg.Service[:1]
+					}
+					if gen == "" {
+						gen = g
+					}
+					if g != gen || tg == nil {
+						atomic.AddInt64(&mixed, 1)
+						firstMixed.CompareAndSwap(nil, fmt.Sprintf("reader %d: generation %s then %s", rd, gen, g))
+					}
+				}
+			}
+		}(rd)
+	}
+	time.Sleep(dur)
+	atomic.StoreInt32(&stop, 1)
+	wg.Wait()
+	route.SetTable(make(route.Table))
+	run.Notes["stress_lookups"] = lookups
+	run.Notes["stress_tables_installed"] = generations
+	if mixed > 0 {
+		run.Violation(-1, "lookups of one reader on one GetTable() snapshot were answered from different table generations (or found nothing)", map[string]interface{}{"count": mixed, "first": firstMixed.Load()})
+	}
+	if lookups < 1000 || generations < 10 {
+		run.Violation(-1, "stress run too short to mean anything", map[string]interface{}{"lookups": lookups, "tables": generations})
+	}
 }
 
 func main() {
-	try("route add s [/ http://h/", "x.com", false)
-	try("route add s [/ http://h/", "x.com", true)
-	try("route add s h.com/ http://h/ weight Inf", "h.com", false)
-	try("route add s h.com/ http://h/ weight NaN\nroute add s h.com/ http://h/ weight NaN", "h.com", false)
-	try("route add s h.com/ http://h/ weight 5e-324", "h.com", false)
-	try("route add s h.com/ http://a/ weight 1e308\nroute add s h.com/ http://b/ weight 1e308", "h.com", false)
-	try("route add s h.com/ http://a/ weight 1e999", "h.com", false)
-	try("route add s h.com/[ http://a/", "h.com", false)
-	try("route add s h.com/ http://a/\x00", "h.com", false)
-	try("route add s h.com/ http://a/ opts \"redirect=9999999999999999999999\"", "h.com", false)
-	for _, s := range []string{"1e-999", "Inf", "nan", "0x1p-2", "1_0", "infinity", "-Inf", "1e400"} {
-		f, err := strconv.ParseFloat(s, 64)
-		fmt.Println(s, f, err)
-	}
-	var defs []route.RouteDef
-	defs = append(defs, route.RouteDef{Cmd: route.RouteAddCmd, Service: "s", Src: "", Dst: "http://a/"})
-	_, err := route.NewTableCustom(&defs)
-	fmt.Println("custom empty src:", err)
-	defs = []route.RouteDef{{Cmd: "bogus"}}
-	_, err = route.NewTableCustom(&defs)
-	fmt.Println("custom bogus:", err)
+	raceReexec()
+	run := vh.Start("C02")
+	buildCases(run)
+	customCases(run)
+	schedCases(run)
+	loopCases(run)
+	stress(run)
+	raceReports(run)
+	run.Finish(preamble, run.Scale(32, 300))
 }
